@@ -306,6 +306,13 @@ func (tb *TB) buildSystem(facts []Atom, at *ssa.BasicBlock, before ssa.Instructi
 			}
 		}
 	}
+	// the error result of a call is known to be nil at this point
+	errNil := func(call ssa.Value) bool {
+		_, ok := findFact(facts, func(a Atom) bool {
+			return a.Kind == "cmp" && a.Op == "==" && a.Y != nil && a.Y.Op == "Nil" && a.X != nil && a.X.Op == "Ext" && len(a.X.Args) == 1 && a.X.Args[0].V == call && a.X.V != nil && isErrorType(a.X.V.Type())
+		})
+		return ok
+	}
 	// axioms about values of the function
 	seenLen := map[string]bool{}
 	addLenAxiom := func(sym string) {
@@ -409,6 +416,20 @@ func (tb *TB) buildSystem(facts []Atom, at *ssa.BasicBlock, before ssa.Instructi
 								s.le(res, ds, dc+pc+tag)
 								s.le(ds, res, -(dc + pc + tag))
 							}
+						} else if errNil(c) {
+							// a successful Open returns exactly len(dst) + len(ct) - 16 bytes
+							e.k += tag
+							s.eqs = append(s.eqs, e)
+							if ds == "0" {
+								s.le(ps, res, -(dc + pc - tag))
+							} else if ps == "0" {
+								s.le(ds, res, -(dc + pc - tag))
+							}
+							if ds == "0" {
+								s.le(res, ps, dc+pc-tag)
+							} else if ps == "0" {
+								s.le(res, ds, dc+pc-tag)
+							}
 						} else {
 							e.k += tag
 							s.ineqs = append(s.ineqs, e) // <= (nil on failure)
@@ -419,11 +440,26 @@ func (tb *TB) buildSystem(facts []Atom, at *ssa.BasicBlock, before ssa.Instructi
 							}
 						}
 					}
+				case "invoke (crypto/cipher.AEAD).Overhead", "invoke (crypto/cipher.AEAD).NonceSize":
+					// every AEAD of the module is made by chacha20poly1305.New (R05 pins the call sites):
+					// 16-byte tag, 12-byte nonce
+					if tb.p.aeadIsChaCha(c.Call.Value, 0) {
+						k := int64(16)
+						if strings.HasSuffix(name, "NonceSize") {
+							k = 12
+						}
+						s.le(sym, "0", k)
+						s.le("0", sym, -k)
+					}
 				case "io.ReadFull", "io.ReadAtLeast":
 					n := sym + ".0"
 					s.le("0", n, 0)
 					bs, bc, _ := tb.lenSym(c.Call.Args[1])
 					s.le(n, bs, bc)
+					// ReadFull returns len(buf) bytes exactly when it returns no error
+					if name == "io.ReadFull" && errNil(c) {
+						s.le(bs, n, -bc)
+					}
 				case "(*encoding/base64.Encoding).Decode":
 					n := sym + ".0"
 					s.le("0", n, 0)
@@ -1517,4 +1553,48 @@ func (p *Program) fieldUnwrittenBetween(from, to ssa.Instruction, name string) b
 func isBuiltinCall(c *ssa.CallCommon) bool {
 	_, ok := c.Value.(*ssa.Builtin)
 	return ok
+}
+
+// aeadIsChaCha: the AEAD value is the result of chacha20poly1305.New, directly or loaded from a
+// struct field every store to which (in the module) is such a result.
+func (p *Program) aeadIsChaCha(v ssa.Value, d int) bool {
+	if d > 3 || v == nil {
+		return false
+	}
+	switch x := stripConv(v).(type) {
+	case *ssa.Extract:
+		c, ok := x.Tuple.(*ssa.Call)
+		return ok && x.Index == 0 && calleeName(&c.Call) == "golang.org/x/crypto/chacha20poly1305.New"
+	case *ssa.Phi:
+		for _, e := range x.Edges {
+			if !p.aeadIsChaCha(e, d+1) {
+				return false
+			}
+		}
+		return len(x.Edges) > 0
+	case *ssa.UnOp:
+		fa, ok := x.X.(*ssa.FieldAddr)
+		if !ok {
+			return false
+		}
+		pt, ok := fa.X.Type().Underlying().(*types.Pointer)
+		if !ok {
+			return false
+		}
+		st, ok2 := pt.Elem().Underlying().(*types.Struct)
+		if !ok2 || fa.Field >= st.NumFields() {
+			return false
+		}
+		stores := p.fieldStores(typeString(pt.Elem()), st.Field(fa.Field).Name())
+		if len(stores) == 0 {
+			return false
+		}
+		for _, fs := range stores {
+			if !p.aeadIsChaCha(fs.Store.Val, d+1) {
+				return false
+			}
+		}
+		return true
+	}
+	return false
 }
